@@ -1094,3 +1094,18 @@ def s_star_struct(ev, N, R): return SV(BOOL, star_b(N.z, R.z))
 def s_NL(ev, N): return SV(Ty('lang'), NL(N.z))
 @spec('lstar')
 def s_lstar(ev, X): return SV(Ty('lang'), lstar(X.z))
+
+
+# ====================================================================== feedback messages of the checkers (C12)
+TextS = sort_of(TEXT)
+msg_should_not = Function('msg_should_not', Word, TextS)      # "Error: word '{}' should not be accepted"
+msg_should = Function('msg_should', Word, TextS)              # "Error: word '{}' should be accepted"
+MESSAGES = {"Error: word '{}' should not be accepted": msg_should_not, "Error: word '{}' should be accepted": msg_should}
+@spec('msg_should_not')
+def s_msg_should_not(ev, w): return SV(TEXT, msg_should_not(w.z))
+@spec('msg_should')
+def s_msg_should(ev, w): return SV(TEXT, msg_should(w.z))
+@spec('show_word')
+def s_show_word(ev, w):
+    """how the checkers print a word: the empty word as the one-letter word epsilon"""
+    return SV(WORD, If(w.z == Word.nil, Word.snoc(Word.nil, ev.atom_const('ε').z), w.z))
